@@ -18,6 +18,7 @@ REQUIRED_HOOKS = [
     "poisson.interpolate_laplacian",
     "robust_poisson.solve_poisson_robust",
     "coulomb.coulomb_potential",
+    "split2:empty-fit-before-a-retaining-atom",
 ]
 REQUIRED_FAMILIES = [
     "bvp-centred",
@@ -31,6 +32,9 @@ REQUIRED_FAMILIES = [
     "robust-exact-core",
     "robust-smooth",
     "weak-density",
+    "robust-depleted",
+    "far-field",
+    "core-model-data",
 ]
 BUDGET = {"quick": 1200, "thorough": 7200}
 MAX_DISCARD_FRACTION = 0.05
@@ -42,6 +46,8 @@ TOL_LAP = 1e-2  # x max(1, max|4 pi rho|)
 TOL_ROUTE = 1e-9  # x max(1, scale) : robust == core potential + BVP(residual)
 TOL_CORE = 1e-8  # x max(1, core charge) : density == core model
 TOL_WEAK = 1e-2  # x sum|c| : V[lam rho]/lam against V[rho] and against the truth, lam in [1e-6, 1e-4] (worst observed 3.7e-5)
+TOL_FAR = 1e-2  # x scale : r |V - V_exact| beyond the last radial shell (effective-charge error; worst observed 6e-5)
+TOL_FIT = 1e-10  # split-2: density of the fitted Gaussians (as passed to coulomb_potential) == rho - core - residual handed to the BVP
 TOL_COREPOT = 1e-11  # library coulomb_potential(core, s-type only) vs own erf sum (relative to core charge)
 
 RULE = (
@@ -65,6 +71,13 @@ RULE = (
     "1e-6..2e-6): V[lam rho]/lam against V[rho] and, on atom grids, against the exact potential. All robust families also "
     "evaluate the returned potential EXACTLY at the nuclei and 1e-13 / 1e-10 away; a post-condition on coulomb_potential "
     "(every call in the process) compares the closed-form part with the monitor's own erf sum there. "
+    "robust-depleted: 2-4 centre molecules (atom order: depleted site first / middle / both / random) whose depleted sites carry zero, "
+    "tiny or negative density so that their split-2 NNLS fit retains nothing (reached >= 2 x per quick run, required hook), split2 off "
+    "and on, decided by the recomposition identity observed at the public functions (residual handed to solve_poisson_bvp == rho - core "
+    "- density of the Gaussians passed to coulomb_potential; robust == core + fitted + BVP part) and by accuracy. far-field: radial "
+    "grids of finite range (LinearFinite, Knowles, HandyMod), points at 1.001 / 1.1 (Knowles: 3, 30, 100) x the last shell, BVP, robust "
+    "and IVP: r V(r) == total charge. Every element of the shipped core-model file is an atom in a route and in a smooth case of every "
+    "run and occurs in molecules; core-model-data checks the file against the library loader / closed form and for plausibility. "
     "A case is non-trivial when at least one solve converged and was compared; non-convergence reported by the library "
     "(ValueError 'didn't converge') discards the case."
 )
@@ -95,6 +108,12 @@ ASSUMPTIONS = [
     "density == core model are decided there. solve_poisson_bvp's interpolant returns exactly 0 for |r| < 1e-300 by construction "
     "(so the robust potential AT a nucleus is the analytic part only) and u(r)/r is rounding noise/r for r <= 1e-10 (5e-3 at 1e-13); "
     "solve_poisson_ivp is not defined below the lower end of r_interval (10 % error at r <= 1e-4) - observed, not decided",
+    "beyond the last radial shell only spherical densities are decided (l>0: the solver imposes u(r_last)=0, far field lost by construction), "
+    "and only up to 1.1 x r_last except Knowles (any distance): the unchanged tree's extrapolation reaches 1.2e-4 at 3 x and 6 at 100 x on "
+    "LinearFinite grids; IVP beyond 1.1 x r_interval[0] is undefined (garbage at 3 x)",
+    "split-2 accuracy with depleted sites: exponents 0.3..1.2, occupied sites carry core charge + 1.5..3; worst observed 1.5e-3 x scale",
+    "core-model plausibility: density of the model at the nucleus within a factor 3000 of min(Z,2) Z^3/pi (observed 0.93..1.03); a "
+    "data-level clause on 5 deterministic numbers, stated from the module's purpose (removing the nuclear cusp)",
     "shipped core parameters contain s functions only (checked at start-up), so the C17 p-type formula defect cannot enter",
 ]
 LEVEL_TEXT = "Exploration: held on every executed density/grid/option combination inside the stated envelope; hundreds of solves, not a proof."
@@ -353,25 +372,69 @@ def cases(tier, seed):
             p = {"k": k, "dens": dens, "rad": spec, "opts": opts, "degree": deg, "lm": lms, "lam_hi": lam_hi}
             cost = 25.0 if opts.get("tol") else 2.0
         add("weak-density", p, cost)
-    # 8-10. robust solver
-    zs = [1, 6, 7, 8, 17]
-    for k in range(4 if q else 48):
-        mol = (k % 4 == 3)
-        atn = [int(_pick(rng, [1, 1, 6, 8]))] if not mol else [int(_pick(rng, [1, 6])), 1]
+    # 8-10. robust solver: EVERY supported element (list read from the shipped JSON) as an atom in route and smooth cases of every
+    # run (exact-core cases are self-consistent with the data file by construction), and inside molecules
+    zs = ref.elements()
+    nz = len(zs)
+    for k in range(max(4, nz + 1) if q else 48):
+        mol = (k % (nz + 1) == nz)
+        atn = [zs[k % (nz + 1)]] if not mol else [int(_pick(rng, [1, 6])), 1]
         add("robust-route", {"k": k, "atnums": atn, "degree": _pick(rng, [8, 10]) if not mol else 14, "mol": mol}, 5.0 if mol else 1.5)
     for k in range(6 if q else 60):
         mol = (k % 6 == 5)
-        atn = [zs[k % 5]] if not mol else [zs[(k // 6) % 5], int(_pick(rng, [1, 6, 8]))]
+        atn = [zs[k % nz]] if not mol else [zs[(k // 6) % nz], int(_pick(rng, [1, 6, 8]))]
         add("robust-exact-core", {"k": k, "atnums": atn, "degree": _pick(rng, [6, 8, 10]) if not mol else 10, "split2": bool(k % 2), "mol": mol}, 2.0 if mol else 0.8)
-    for k in range(4 if q else 48):
-        mol = (k % 4 == 3)
-        atn = [zs[int(rng.integers(0, 4))]] if not mol else [1, 1]
-        add("robust-smooth", {"k": k, "atnums": atn, "degree": _pick(rng, [8, 10]) if not mol else 14, "mol": mol}, 8.0 if mol else 2.5)
+    for k in range(max(4, nz + 2) if q else 56):
+        j = k % (nz + 2)
+        mol = j >= nz
+        if not mol:
+            atn, deg = [zs[(j + 2) % nz]], _pick(rng, [8, 10])
+        elif j == nz:
+            atn, deg = [1, 1], 14
+        else:  # heavier pair with similar Becke radii, both elements' cores in the density
+            heavy = [z for z in zs if z > 1]
+            atn, deg = [int(_pick(rng, heavy)), int(_pick(rng, heavy))], 14
+            if 17 in atn and atn != [17, 17]:
+                deg = 22
+        add("robust-smooth", {"k": k, "atnums": atn, "degree": deg, "mol": mol}, (8.0 if mol else 2.5) * (deg / 14.0 if mol else 1.0) ** 2)
+    # 11. multi-centre robust cases with electron-depleted sites (split-2 fit retains nothing there), atom order permuted
+    for k in range(6 if q else 42):
+        nat = [2, 2, 3, 3, 4, 2][k % 6] if q else int(rng.integers(2, 5))
+        pool = [1] if k % 6 != 5 else _pick(rng, [[6, 7, 8], [1], [17], [6, 7, 8]])
+        atn = [int(_pick(rng, pool)) for _ in range(nat)]
+        nempty = 1 if nat == 2 else int(rng.integers(1, nat))
+        # k % 6 == 0,1: empty site FIRST; 2: MIDDLE; 3: first and middle; others random positions
+        if k % 6 in (0, 1):
+            empty = [0]
+        elif k % 6 == 2:
+            empty = [1]
+        elif k % 6 == 3:
+            empty = [0, 1]
+        else:
+            empty = sorted(int(i) for i in rng.choice(nat, size=nempty, replace=False))
+        add("robust-depleted", {"k": k, "atnums": atn, "empty": empty, "mode": _pick(rng, ["zero", "zero", "tiny", "negative"]), "far": bool(k % 6 < 3), "degree": 14}, 4.0 * nat)
+    # 12. finite radial range: evaluation points beyond the last radial shell (far field Q/r)
+    for k in range(6 if q else 48):
+        what = ["bvp:gl-linfinite", "bvp:gl-knowles", "bvp:gl-handymod", "robust:gl-handymod", "ivp", "bvp:trap-linfinite", "robust:gl-linfinite"][k % (6 if q else 7)]
+        solver, _, kind = what.partition(":")
+        if kind == "gl-linfinite":
+            spec, opts = {"kind": kind, "n": 150, "rmin": 1e-5, "rmax": _pick(rng, [25.0, 30.0, 40.0])}, {"include_origin": True, "rlp": _pick(rng, [None, 1e6])}
+        elif kind == "trap-linfinite":
+            spec, opts = {"kind": kind, "n": _pick(rng, [400, 500]), "rmin": 1e-3, "rmax": _pick(rng, [20.0, 25.0])}, {"include_origin": True, "rlp": 1e6}
+        elif kind == "gl-knowles":
+            spec, opts = {"kind": kind, "n": _pick(rng, [100, 120]), "R": _pick(rng, [1.5, 2.0])}, {"include_origin": False, "rlp": _pick(rng, [None, 1e6])}
+        elif kind == "gl-handymod":
+            spec, opts = {"kind": kind, "n": _pick(rng, [100, 120]), "rmax": _pick(rng, [50.0, 60.0, 80.0])}, {"include_origin": False, "rlp": _pick(rng, [None, 1e6])}
+        else:
+            spec, opts = {"kind": "trap-linfinite", "n": 3000, "rmin": 1e-3, "rmax": 1e3}, None
+        add("far-field", {"k": k, "solver": solver, "rad": spec, "opts": opts, "degree": _pick(rng, [6, 8, 10]), "Z": int(zs[k % nz])}, 2.0)
+    # 13. shipped core-model data, independent of the solvers
+    add("core-model-data", {"k": 0}, 1.0)
     return out
 
 
 # ---------------------------------------------------------------------------------------------------
-_capture = {"on": False, "calls": []}
+_capture = {"on": False, "calls": [], "coul_on": False, "coul": []}
 
 
 def setup(ctx):
@@ -406,6 +469,8 @@ def setup(ctx):
         names = ["points", "centers_s", "coeffs_s", "alphas_s", "centers_p", "coeffs_p", "alphas_p", "normalized"]
         b = dict(zip(names, args))
         b.update(kwargs)
+        if _capture["coul_on"]:
+            _capture["coul"].append({k: (np.array(v, dtype=float) if k in names[:4] and v is not None else v) for k, v in b.items()})
         if b.get("coeffs_p") is not None or b.get("centers_p") is not None:
             return  # p-type functions are C17's business (open finding); the robust solver never passes them
         pts = np.array(b["points"], dtype=float)
@@ -804,6 +869,12 @@ def _run(ctx, family, params):
 
     elif family in ("robust-route", "robust-exact-core", "robust-smooth"):
         _run_robust(ctx, family, params)
+    elif family == "robust-depleted":
+        _run_depleted(ctx, params)
+    elif family == "far-field":
+        _run_far_field(ctx, params)
+    elif family == "core-model-data":
+        _run_core_data(ctx)
     else:
         raise core.MonitorError(f"unknown family {family}")
 
@@ -924,3 +995,206 @@ def _run_robust(ctx, family, params):
     elif not res:
         raise _NotConverged("both robust branches")
     _compare(ctx, "bvp-accuracy-centred" if not mol else "bvp-accuracy-mol", f"solve_poisson_bvp[{'cc-becke' if mol else 'gl-becke'},robust-companion]", vplain, truth, TOL_ACC, float(np.sum(np.abs(cs))))
+
+
+# ---------------------------------------------------------------------------------------------------
+def _robust_with_capture(ctx, clause, subj, grid, rho, tf, atn, coords, split2, kw, P):
+    """solve_poisson_robust under the hooks: returns (values at P, residual handed to the public BVP solver, its interpolant,
+    list of the coulomb_potential calls made while evaluating at P)."""
+    from grid.robust_poisson import solve_poisson_robust
+
+    _capture["on"], _capture["calls"] = True, []
+    try:
+        pot = _call(ctx, clause, subj, lambda: solve_poisson_robust(grid, rho, tf, np.array(atn), np.array(coords), split2=split2, **kw))
+    finally:
+        _capture["on"] = False
+    calls = [c for c in _capture["calls"] if len(c[0]) >= 2 and np.shape(c[0][1]) == np.shape(rho)]
+    _capture["calls"] = []
+    _capture["coul_on"], _capture["coul"] = True, []
+    try:
+        vals = _call(ctx, clause, subj, lambda: pot(P))
+    finally:
+        _capture["coul_on"] = False
+    coul, _capture["coul"] = _capture["coul"], []
+    if not calls:
+        ctx.fail(clause, subj, "bvp-solver-not-called")
+        raise _NotConverged("raised")
+    return np.asarray(vals, dtype=float), np.asarray(calls[-1][0][1], dtype=float), calls[-1][2], coul
+
+
+def _check_recomposition(ctx, subj, grid, rho, atn, coords, P, vals, handed, interp, coul, scale):
+    """robust == analytic core + analytic fitted (split-2) part + BVP of what is left, from the pieces observed at the public
+    functions.  Returns the number of Gaussians the split-2 fit retained on each atom."""
+    nat = len(atn)
+    coords = np.asarray(coords, dtype=float)
+    own_core = ref.core_density(grid.points, atn, coords)
+    fit = None
+    if len(coul) == nat + 1:
+        fit = coul[-1]
+    elif len(coul) != nat:
+        ctx.fail("robust-equals-core-plus-bvp", subj, f"unexpected-number-of-coulomb_potential-calls:{len(coul)}-for-{nat}-atoms")
+        return [0] * nat
+    mag = float(np.max(np.abs(own_core)) + np.max(np.abs(rho)))
+    if fit is not None:
+        fc, fa, fcen = fit["coeffs_s"], fit["alphas_s"], fit["centers_s"]
+        rho_fit = ref.gauss_density(grid.points, fc, fa, fcen)
+        v_fit = ref.gauss_potential(P, fc, fa, fcen)
+        dist = np.linalg.norm(fcen[:, None, :] - coords[None, :, :], axis=2)
+        owner = np.argmin(dist, axis=1)
+        ctx.check("split2-fit-consistent", subj + ":centres-are-atoms", float(np.max(np.min(dist, axis=1))), 1e-12)
+        ctx.check("split2-fit-consistent", subj + ":coefficients-positive", bool(np.all(fc > 0) and np.all(fa > 0)))
+        retained = [int(np.sum(owner == i)) for i in range(nat)]
+    else:
+        rho_fit, v_fit, retained = np.zeros(len(rho)), np.zeros(len(P)), [0] * nat
+    # (a) the density the BVP solver was given is what is left after core and fitted Gaussians AT THE CENTRES THEIR POTENTIAL USES
+    d = float(np.max(np.abs(handed - (rho - own_core - rho_fit)))) / mag
+    wrong = "fitted-gaussians-on-other-centres" if fit is not None and d > TOL_FIT else "residual-differs"
+    ctx.check("split2-fit-consistent", subj + ":residual==rho-core-fit", d, TOL_FIT, sig=wrong, detail={"retained_per_atom": retained, "max_abs": d * mag})
+    # (b) the sum
+    _compare(ctx, "robust-equals-core-plus-bvp", subj + ":recomposed", vals, ref.core_potential(P, atn, coords) + v_fit + np.asarray(interp(P), dtype=float), TOL_ROUTE, max(1.0, scale))
+    return retained
+
+
+def _run_depleted(ctx, params):
+    """Molecules in which some sites carry no / tiny / negative density: their split-2 NNLS fit retains nothing."""
+    from grid.poisson import solve_poisson_bvp
+
+    rng = ctx.rng
+    atn = [int(z) for z in params["atnums"]]
+    nat = len(atn)
+    spec = {"kind": "cc-becke", "n": 100, "rmin": 1e-5, "R": 1.5}
+    rg, tf, r0, rmax = make_radial(spec)
+    lo, hi = (3.5, 6.0) if params["far"] else (1.6, 4.0)
+    while True:
+        pts = [np.zeros(3)]
+        for _ in range(nat - 1):
+            u = rng.normal(size=3)
+            pts.append(pts[int(rng.integers(len(pts)))] + u / np.linalg.norm(u) * rng.uniform(lo, hi))
+        coords = np.array(pts)
+        if (np.linalg.norm(coords[:, None] - coords[None], axis=2) + 10 * np.eye(nat)).min() >= lo:
+            break
+    coords = coords + rng.uniform(-0.5, 0.5, 3)
+    grid = _molgrid(rg, params["degree"], atn, coords)
+    kw = {"include_origin": False}
+    # occupied sites are electron rich (charge = core charge + 1.5..3, so that the fit has something to retain), empty ones not
+    cs = np.array([ref.core_charge([z]) + rng.uniform(1.5, 3.0) for z in atn])
+    al = _loguniform(rng, 0.3, 1.2, nat)
+    for i in params["empty"]:
+        cs[i] = {"zero": 0.0, "tiny": 1e-3, "negative": -float(rng.uniform(0.2, 0.8))}[params["mode"]]
+    rho = ref.gauss_density(grid.points, cs, al, coords)
+    P = _eval_points(rng, coords)
+    truth = ref.gauss_potential(P, cs, al, coords)
+    qcore = ref.core_charge(atn)
+    scale = float(np.sum(np.abs(cs))) + qcore
+    tag = f"[mol,{nat}-centre,depleted-sites]"
+    res = {}
+    for s2 in (False, True):
+        subj = f"solve_poisson_robust{tag}:split2={s2}"
+        try:
+            vals, handed, interp, coul = _robust_with_capture(ctx, "robust-equals-core-plus-bvp", subj, grid, rho, tf, atn, coords, s2, kw, P)
+        except _NotConverged as exc:
+            if str(exc) != "raised":
+                ctx.count("robust-depleted:one-branch-not-converged")
+            continue
+        retained = _check_recomposition(ctx, subj, grid, rho, atn, coords, P, vals, handed, interp, coul, scale)
+        res[s2] = vals
+        if s2:
+            ctx.case_note("retained_per_atom", retained)
+            later = [any(r > 0 for r in retained[i + 1 :]) for i in range(nat)]
+            if any(retained[i] == 0 and later[i] for i in range(nat)):
+                ctx.hit("split2:empty-fit-before-a-retaining-atom")
+                if retained[0] == 0:
+                    ctx.hit("split2:empty-fit-on-first-atom")
+                if any(retained[i] == 0 and later[i] for i in range(1, nat)):
+                    ctx.hit("split2:empty-fit-on-middle-atom")
+            if not any(retained):
+                ctx.count("robust-depleted:split2-retained-nothing")
+        _compare(ctx, "robust-accuracy", subj, vals, truth, TOL_ACC, scale, note=f"vs-truth/scale(split2={s2})", extra={"coeffs": cs, "alphas": al, "atnums": atn})
+    if not res:
+        raise _NotConverged("both robust branches")
+    if len(res) == 2:
+        _compare(ctx, "robust-split2-on-equals-off", f"solve_poisson_robust{tag}", res[True], res[False], TOL_ACC, scale, note="split2 on-off/scale")
+
+
+def _run_far_field(ctx, params):
+    """Radial grids of FINITE range, evaluation points beyond the last radial shell: outside all charge V = Q/r.
+    Decided for spherical densities only (for l>0 the solver imposes u(r_last)=0, the far field is lost by construction) and up to
+    the distance factors where the unchanged tree's polynomial extrapolation of u(r) was measured to keep r|dV| <= 1e-4 x scale."""
+    from grid.poisson import solve_poisson_bvp, solve_poisson_ivp
+    from grid.robust_poisson import solve_poisson_robust
+
+    rng = ctx.rng
+    rg, tf, r0, rmax = make_radial(params["rad"])
+    kind, solver = params["rad"]["kind"], params["solver"]
+    ctr = _centre(rng) if solver != "ivp" else np.zeros(3)
+    ag = _atomgrid(rg, params["degree"], ctr)
+    n = int(rng.integers(1, 3))
+    if solver == "ivp":
+        cs, al = _coeffs(rng, n), _loguniform(rng, 0.05, 0.5, n)
+        factors = [1.001, 1.1]  # beyond that the dense output of the inward IVP is not defined (measured: garbage at 3 x)
+    else:
+        cs, al = _coeffs(rng, n), _loguniform(rng, 0.3, 1.5, n)  # (400-point linear grids resolve exponents <= 1.5 to 1e-4)
+        # measured worst r|dV|/scale on the unchanged tree: Knowles 1e-6 at every distance; HandyMod / LinearFinite 3.5e-6 (robust
+        # 2.9e-5) at 1.1 x, 1.2e-4 at 3 x (not decided: < 100 x margin), LinearFinite 6 at 100 x (cubic extrapolation in the
+        # transformed variable)
+        factors = {"gl-knowles": [1.001, 1.1, 3.0, 30.0, 100.0], "gl-handymod": [1.001, 1.1], "gl-linfinite": [1.001, 1.1], "trap-linfinite": [1.001, 1.1]}[kind]
+    rho = ref.gauss_density(ag.points, cs, al, [ctr] * n)
+    scale = float(np.sum(np.abs(cs)))
+    P = []
+    for f in factors:
+        for _ in range(6):
+            u = rng.normal(size=3)
+            P.append(ctr + u / np.linalg.norm(u) * f * rmax)
+    P = np.array(P)
+    fac = np.repeat(factors, 6)
+    if solver == "bvp":
+        subj = _subject("solve_poisson_bvp", params["rad"], params["opts"]) + ":beyond-last-shell"
+        pot = _call(ctx, "far-field-beyond-last-shell", subj, lambda: solve_poisson_bvp(ag, rho, tf, **_bvp_kwargs(params["opts"])))
+    elif solver == "ivp":
+        subj = "solve_poisson_ivp[trap-linfinite]:beyond-r_interval"
+        pot = _call(ctx, "far-field-beyond-last-shell", subj, lambda: solve_poisson_ivp(ag, rho, tf, r_interval=(1e3, 1e-3)))
+    else:
+        z = params["Z"]
+        subj = f"solve_poisson_robust[atom,Z={z},{kind}]:beyond-last-shell"
+        scale += ref.core_charge([z])
+        kw = {"include_origin": bool(params["opts"]["include_origin"]), "remove_large_pts": params["opts"]["rlp"]}
+        pot = _call(ctx, "far-field-beyond-last-shell", subj, lambda: solve_poisson_robust(ag, rho, tf, np.array([z]), np.array([ctr]), **kw))
+    got = np.asarray(_call(ctx, "far-field-beyond-last-shell", subj, lambda: pot(P)), dtype=float)
+    want = ref.gauss_potential(P, cs, al, [ctr] * n)
+    r = np.linalg.norm(P - ctr, axis=1)
+    for f in factors:
+        m = fac == f
+        _compare(ctx, "far-field-beyond-last-shell", subj + f":{f:g}x", got[m] * r[m], want[m] * r[m], TOL_FAR, scale, note=f"r|dV|/scale at {f:g} x r_last", extra={"r_last": rmax, "factor": f})
+    # and inside the range as usual
+    Pi = _eval_points(rng, [ctr], lo=0.05 if solver != "ivp" else 0.3, hi=8.0)
+    _compare(ctx, "bvp-accuracy-centred" if solver != "ivp" else "ivp-accuracy-spherical", subj.split(":")[0] + ":finite-range", pot(Pi), ref.gauss_potential(Pi, cs, al, [ctr] * n), TOL_ACC, scale)
+
+
+def _run_core_data(ctx):
+    """The shipped core-model file against the library's loader and closed forms - no Poisson solve involved."""
+    from grid.coulomb import coulomb_potential, load_atomic_gaussian_params
+
+    for z in ref.elements():
+        sym = ref.SYMBOL[z]
+        c, a, extra = ref.core_params(z)
+        subj = f"atomic_gauss_params[{sym}]"
+        with ctx.guard("core-model-data", subj):
+            for key in (z, np.int64(z), sym, sym.lower()):
+                lc, la = load_atomic_gaussian_params(key)
+                ctx.check("core-model-data", subj + ":loader==file", bool(np.array_equal(lc, c) and np.array_equal(la, a)))
+            q = float(np.sum(c))
+            ctx.check("core-model-data", subj + ":well-formed", bool(len(c) == len(a) > 0 and np.all(a > 0) and np.all(np.isfinite(c)) and not extra))
+            # far field of the library's closed form: r V(r) -> total charge of the model
+            u = ctx.rng.normal(size=(8, 3))
+            Pf = u / np.linalg.norm(u, axis=1)[:, None] * 60.0
+            v = coulomb_potential(Pf, centers_s=np.zeros((len(c), 3)), coeffs_s=c, alphas_s=a, normalized=True)
+            ctx.check("core-model-data", subj + ":far-field==charge", float(np.max(np.abs(60.0 * v - q))) / q, 1e-12)
+            # the model is there to remove the NUCLEAR CUSP of element Z (module docstring): its density at the nucleus must be of the
+            # size of an atomic density there, min(Z,2) Z^3/pi for the 1s shell (observed ratios 0.93 .. 1.03; a coefficient/exponent
+            # mis-pairing changes it by orders of magnitude)
+            ratio = ref.core_density_at_nucleus(z) / (min(z, 2) * z**3 / np.pi)
+            ctx.case_note(f"rho_core(0)/(1s estimate)[{sym}]", ratio)
+            ctx.case_note(f"charge[{sym}]", q)
+            ctx.check("core-model-nuclear-density-plausible", subj, abs(math.log(ratio)), math.log(3000.0), sig=f"ratio~1e{int(round(math.log10(ratio)))}", detail={"ratio": ratio})
+            # the model charge is about the electron count of the neutral atom (observed Z .. Z + 1.3)
+            ctx.check("core-model-data", subj + ":charge-about-Z", bool(0.9 * z <= q <= z + 2.0), detail={"charge": q})
